@@ -59,11 +59,10 @@ def main():
         checks = (a.checks.split(',') if a.checks else [a.prop])
         meta['checks'] = {}
         env = dict(os.environ, VF_REPO=wt, VERIF_TIER=a.tier)
-        # evidence files are rewritten by a check run: keep the unchanged-tree evidence
-        save = tempfile.mkdtemp(prefix='evsave.')
-        ev = os.path.join(VERIF, 'evidence')
-        if os.path.isdir(ev):
-            shutil.copytree(ev, os.path.join(save, 'evidence'))
+        # a check run rewrites evidence files: seed evaluations write theirs to a private directory (concurrent evaluations do not
+        # disturb each other or the committed unchanged-tree evidence)
+        save = tempfile.mkdtemp(prefix='evseed.')
+        env['VF_EVIDENCE_DIR'] = save
         for c in checks:
             t = time.time()
             r = sh([os.path.join(VERIF, 'check'), c, '--tier', a.tier], env=env, timeout=7200)
@@ -71,9 +70,6 @@ def main():
             meta['checks'][c] = {'rc': r.returncode, 'wall_s': round(time.time() - t, 1), 'detected': r.returncode == 1,
                                  'lines': lines[:12]}
             print(c, 'rc', r.returncode, 'detected' if r.returncode == 1 else '', lines[:3], flush=True)
-        if os.path.isdir(os.path.join(save, 'evidence')):
-            shutil.rmtree(ev, ignore_errors=True)
-            shutil.copytree(os.path.join(save, 'evidence'), ev)
         shutil.rmtree(save, ignore_errors=True)
         meta['ran'] += ['unedited suite built and run in the scratch worktree', 'demo compiled and run with and without the change',
                         f'./check <id> --tier {a.tier} with VF_REPO=<scratch worktree> for ' + ','.join(checks)]
